@@ -430,6 +430,38 @@ def seq_of_var(facts, body, local):
                 out.append(s)
             return out
         if n == 'resize':
+            # v.resize(new_len, x) appends x (new_len - current_len) times when new_len is `v.len() + k` (growth): the length read
+            # that feeds new_len is located (slice_calls) and the appends between that read and the resize are subtracted
+            from .sym import slice_calls
+            reads = [r for r in slice_calls(body, t.args[1], r'(Vec|String|VecDeque)::len$')
+                     if core(sym(body, r.args[0]))[0] == 'var' and core(sym(body, r.args[0]))[2] == local]
+            if len(reads) == 1:
+                r = reads[0]
+                between = [w for w, k2 in writers if k2 == 'append' and w is not t and cfg.dominates(body, r.bb, w.bb) and w.bb != r.bb and
+                           cfg.dominates(body, w.bb, t.bb) and w.bb != t.bb]
+                cnt = ('bin', 'Sub', items(args[0], nest), items(sym(body, r.dest), nest))
+                ok = True
+                for w in between:
+                    wn = last_seg(w.callee_res() or '')
+                    wa = [sym(body, a) for a in w.args[1:]]
+                    if wn in ('push', 'push_back'):
+                        c = ('const', '1_usize', 1)
+                    elif wn == 'resize':
+                        sub = direct(w, 'append', scope_entry, nest, level)
+                        c = sub[0].count if sub and sub[0].kind == 'repeat' else None
+                    elif wn in ('extend', 'extend_from_slice', 'append'):
+                        xs = seq_of_iter(facts, body, wa[0], level)
+                        c = None
+                        if xs is not None and len(xs) == 1:
+                            c = xs[0].count if xs[0].kind == 'repeat' else (('call', 'len', (items(xs[0].src, nest),)) if xs[0].kind == 'each' and not xs[0].conds else None)
+                    else:
+                        c = None
+                    if c is None:
+                        ok = False
+                        break
+                    cnt = ('bin', 'Sub', cnt, items(c, nest))
+                if ok:
+                    return [Seg('repeat', elem=items(args[1], nest), count=cnt, conds=conds, term=t, body=body, level=level)]
             return [Seg('opaque', what='resize', term=t, body=body, count=items(args[0], nest), elem=items(args[1], nest), conds=conds)]
         return [Seg('opaque', what=n, term=t, body=body)]
 
